@@ -23,7 +23,9 @@ func init() {
 			"(N3) an expired duty is removed from the set only on paths on which its report was delivered; (N5) after a removal the timer state is recomputed before the next event; " +
 			"(N4) getCurrDuty selects the minimum deadline, ignores never-expiring duties and returns the duty whose deadline it returns; " +
 			"(N6) a registration stores the received duty under a key computed from that duty, or positionally (append/insert/push/element store) only behind a test of that duty's identity, so registering a pending duty again has no further effect; " +
-			"(N2, cont.) DeadlineExpired is answered only on paths on which the duty's own deadline was decided to lie before the clock value read after the registration arrived.",
+			"(N2, cont.) DeadlineExpired is answered only on paths on which the duty's own deadline was decided to lie before the clock value read after the registration arrived; " +
+			"(N7) every status Add returns is the value received on the reply channel it handed to the run goroutine, or follows a receive from the channel run closes when it ends (no answer from state kept outside the actor); " +
+			"(N8) every timer of the run goroutine is armed with (selected deadline - now) or longer, or every reporting path of the timer case first decides that the selected deadline is not after the clock.",
 		NotDecided: "'at or after its deadline' and ordering by deadline as statements about clock values; behaviour of the clockwork timer.",
 		Run:        c16,
 		Mutants: []Mutant{
@@ -136,6 +138,40 @@ func init() {
 					{"\tfor duty := range duties {\n", "\tfor _, duty := range duties {\n"},
 				}, [2]string{"// C returns the deadline channel.",
 					"func (d *deadliner) enqueue(q []Duty, duty Duty) []Duty {\n\tq = append(q, Duty{})\n\tcopy(q[1:], q)\n\tq[0] = duty\n\n\treturn q\n}\n\n// C returns the deadline channel."})},
+			// round 5: N7, Add answers without the run goroutine's reply
+			{ID: "C16-N7-busy-default-scheduled", File: "core/deadline.go", Expect: "N7|reply",
+				Old: "\tcase d.inputChan <- deadlineInput{duty: duty, success: success}:\n\t}\n",
+				New: "\tcase d.inputChan <- deadlineInput{duty: duty, success: success}:\n\tdefault:\n\t\treturn DeadlineScheduled\n\t}\n"},
+			{ID: "C16-N7-no-wait-for-reply", File: "core/deadline.go", Expect: "N7|reply",
+				Old: "\tcase status := <-success:\n\t\treturn status\n\t}\n",
+				New: "\tcase status := <-success:\n\t\treturn status\n\tdefault:\n\t\treturn DeadlineScheduled\n\t}\n"},
+			{ID: "C16-N7-mutex-mirror-expired", File: "core/deadline.go", Expect: "N7|reply",
+				Old: "func (d *deadliner) Add(duty Duty) DeadlineStatus {\n",
+				New: "func (d *deadliner) Add(duty Duty) DeadlineStatus {\n\td.mu.Lock()\n\tdone := d.reported[duty]\n\td.mu.Unlock()\n\n\tif done {\n\t\treturn DeadlineExpired\n\t}\n\n",
+				More: [][2]string{
+					{"import (\n\t\"context\"\n", "import (\n\t\"context\"\n\t\"sync\"\n"},
+					{"\tquit         chan struct{}\n}", "\tquit         chan struct{}\n\tmu           sync.Mutex\n\treported     map[Duty]bool\n}"},
+					{"\t\tquit:         make(chan struct{}),\n", "\t\tquit:         make(chan struct{}),\n\t\treported:     make(map[Duty]bool),\n"},
+					{"\t\t\tcase d.deadlineChan <- currDuty:\n", "\t\t\tcase d.deadlineChan <- currDuty:\n\t\t\t\td.mu.Lock()\n\t\t\t\td.reported[currDuty] = true\n\t\t\t\td.mu.Unlock()\n"},
+				}},
+			// round 5: N8, the timer can fire before the selected deadline and the timer case does not re-check
+			{ID: "C16-N8-cap-if", File: "core/deadline.go", Expect: "N8|timer armed",
+				Old: "\t\tcurrTimer = d.clock.NewTimer(currDeadline.Sub(d.clock.Now()))\n",
+				New: "\t\twait := currDeadline.Sub(d.clock.Now())\n\t\tif wait > time.Hour {\n\t\t\twait = time.Hour\n\t\t}\n\n\t\tcurrTimer = d.clock.NewTimer(wait)\n"},
+			{ID: "C16-N8-swapped-sub", File: "core/deadline.go", Expect: "N8|timer armed",
+				Old: "\tcurrTimer := d.clock.NewTimer(currDeadline.Sub(d.clock.Now()))\n",
+				New: "\tcurrTimer := d.clock.NewTimer(d.clock.Now().Sub(currDeadline))\n"},
+			{ID: "C16-N8-half-wait", File: "core/deadline.go", Expect: "N8|timer armed",
+				Old: "\t\tcurrTimer = d.clock.NewTimer(currDeadline.Sub(d.clock.Now()))\n",
+				New: "\t\tcurrTimer = d.clock.NewTimer(currDeadline.Sub(d.clock.Now()) / 2)\n"},
+			{ID: "C16-N8-poll-constant", File: "core/deadline.go", Expect: "N8|timer armed",
+				Old: "\t\tcurrTimer = d.clock.NewTimer(currDeadline.Sub(d.clock.Now()))\n",
+				New: "\t\tcurrTimer = d.clock.NewTimer(slotPoll)\n",
+				More: [][2]string{{"\tmarginFactor = 12\n", "\tmarginFactor = 12\n\n\tslotPoll = 12 * time.Second\n"}}},
+			{ID: "C16-N8-helper-early-return-cap", File: "core/deadline.go", Expect: "N8|timer armed",
+				Old: "\t\tcurrTimer = d.clock.NewTimer(currDeadline.Sub(d.clock.Now()))\n",
+				New: "\t\tcurrTimer = d.clock.NewTimer(d.waitFor(currDeadline))\n",
+				More: [][2]string{{"// C returns the deadline channel.", "func (d *deadliner) waitFor(deadline time.Time) time.Duration {\n\twait := deadline.Sub(d.clock.Now())\n\tif wait >= 6*time.Hour {\n\t\treturn 6 * time.Hour\n\t}\n\n\treturn wait\n}\n\n// C returns the deadline channel."}}},
 		},
 	})
 }
@@ -1230,6 +1266,27 @@ func c16(c *rt.Ctx) {
 		if c16Idempotent(agg, iters, evSel, inIdx, actor) == 0 {
 			c.Bail("no path through the input case stores the registered duty in a collection")
 		}
+		agg.flush()
+	})
+
+	c.Rule("N7", 1, func() {
+		// every answer of Add comes from the run goroutine (see c16n5_add.go)
+		c16AddAnswers(c, pkgFuncs, actorFns, actor)
+	})
+
+	c.Rule("N8", 1, func() {
+		// never early: the timer is armed with exactly (deadline - now), or the timer case re-checks the deadline
+		// against the clock before reporting (see c16n5_timer.go)
+		needGetCurr()
+		explore()
+		if tmIdx < 0 {
+			c.Bail("run: the event select has no case receiving from the timer's channel")
+		}
+		agg := newAgg(c)
+		c16TimerNeverEarly(c, agg, pkgFuncs, actor, iters, tmIdx, isDeadlineChan, func(s *an.Sym) bool {
+			ok, _ := fromGetCurr(s, 1)
+			return ok
+		})
 		agg.flush()
 	})
 
